@@ -104,10 +104,6 @@ func (rb *RowBlock) Populate(ctx context.Context, eds eds.Accessor) error {
 
 func (rb *RowBlock) UnmarshalFn(root *share.AxisRoots) UnmarshalFn {
 	return func(cntrData, idData []byte) error {
-		if !rb.Container.IsEmpty() {
-			return nil
-		}
-
 		rid, err := shwap.RowIDFromBinary(idData)
 		if err != nil {
 			return fmt.Errorf("unmarhaling RowID: %w", err)
@@ -131,6 +127,11 @@ func (rb *RowBlock) UnmarshalFn(root *share.AxisRoots) UnmarshalFn {
 			return fmt.Errorf("validating Row for %+v: %w", rb.ID, err)
 		}
 
+		// a Block that is populated already keeps what it has, but whatever else arrives for
+		// its identifier is still verified: the hasher must not vouch for data nobody looked at
+		if !rb.Container.IsEmpty() {
+			return nil
+		}
 		rb.Container = cntr
 		return nil
 	}
